@@ -98,12 +98,24 @@ CompleteOK(pre, rec) ==
   /\ \A h \in H(post) : (pre.D[h].present /\ ~post.D[h].present) => ReportedMod(rec, "D", h, "Del")
   /\ \A h \in H(post) : (pre.D[h].present /\ post.D[h].present /\ pre.D[h] # post.D[h]) => ReportedMod(rec, "D", h, "Upt")
 
+\* a description modification report is self-contained: next to a created / updated descriptor it carries every state of
+\* that descriptor which the transaction changed (a subscriber of the description event service alone - subscriptions
+\* filter by action - must not be left with states of an outdated DescriptorVersion)
+SelfContained(pre, rec) ==
+  \A i \in 1..Len(rec.reports) : \A e \in Rng(rec.reports[i].entries) :
+     (e.k = "D" /\ e.mod \in {"Crt", "Upt"} /\ In(e)) =>
+        LET same(k, h) == \E f \in Rng(rec.reports[i].entries) : f.k = k /\ f.h = h
+            post == rec.post
+        IN /\ (post.S[e.h].present /\ pre.S[e.h] # post.S[e.h]) => same("S", e.h)
+           /\ \A c \in CH(post) : (post.C[c].present /\ post.C[c].d = e.h /\ pre.C[c] # post.C[c]) => same("C", c)
+
 ReportsOK(pre, rec) ==
   /\ Clause("report_triple", TripleOK(rec))
   /\ Clause("report_schema_valid", ValidOK(rec))
   /\ Clause("report_truthful", \A e \in Entries(rec) : In(e) => TruthfulEntry(pre, rec.post, e))
   /\ Clause("report_only_changed", \A e \in Entries(rec) : In(e) => ChangedEntity(pre, rec.post, e))
   /\ Clause("report_complete", CompleteOK(pre, rec))
+  /\ Clause("report_description_self_contained", SelfContained(pre, rec))
   /\ Clause("report_mds_grouping", \A e \in Entries(rec) : e.mds = e.own)
   /\ Clause("report_rest_announced", (pre.rest # rec.post.rest) => \E e \in Entries(rec) : ~In(e))
 
